@@ -301,3 +301,4 @@ def run(ctx):
     _run_rules(ctx)
     from .. import boundaries
     boundaries.check(ctx, 'C07.RB', 'C07')
+    boundaries.check_calls(ctx, 'C07.RC', 'C07')
